@@ -100,3 +100,13 @@ def evidence(prop, tier, seed, plan, results, infra, unlisted, known_hits, wall,
         ],
     }
     return ev
+
+# per-property text for MANIFEST.json
+META = {
+    "C01": {
+        "level": "Seeded exploration of complete multi-client editing sessions (2-5 real clients, real server, 20-200 steps, long offline stretches, re-attach, rejoin, vanish) with and without message faults; oracles: byte-identical Marshal() of all replicas and of the server's rebuilt document after bounded quiescence, equal content whenever two replicas hold equal version vectors, no un-faulted call fails, clone == root. Sampling, not proof.",
+        "note": "memdb instead of MongoDB; one RPC is one atomic step; GC-related known findings (known_findings.json) are recognised only after minimisation plus a GC-off counterfactual replay",
+    },
+}
+
+NOT_CLAIMED = {}
